@@ -369,6 +369,325 @@ func goAdnlNewKeys(a []string) string {
 	return "ok"
 }
 
+// ---- the same fault stream, slow consumers and long-lived sessions through the real Connection -----------------------
+
+// goAdnlConnFaults: like go.adnl.faults, but through liteclient.NewConnection and Connection.Responses(): the server
+// sends frames one of which is corrupted (or cuts the stream) and closes. Responses() must yield exactly the frames
+// before the faulty one and then NOTHING — not even an empty packet — for the corrupt frame or the end of the stream.
+//
+//	args: serverSeed seed sizes fault
+func goAdnlConnFaults(a []string) string {
+	quietStdout()
+	rng := rand.New(rand.NewSource(int64(atoi(a[1]))))
+	sizes := parseSizes(a[2])
+	f := parseFault(a[3])
+	if f.frame < 0 || f.frame >= len(sizes) {
+		return "bad-op"
+	}
+	srv, err := newADNLServer(h.MustUnHex(a[0]))
+	if err != nil {
+		return "FAIL listen " + err.Error()
+	}
+	defer srv.close()
+	replyNonce := make([]byte, 32)
+	rng.Read(replyNonce)
+	conn, sc, fail := dialReal(srv, replyNonce)
+	if fail != "" {
+		return fail
+	}
+	defer sc.close()
+	defer conn.VerifRetire()
+	var in []pkt
+	var plain []byte
+	start := 0
+	for i, n := range sizes {
+		nonce := make([]byte, 32)
+		rng.Read(nonce)
+		p := pkt{nonce, payloadOf(rng, n)}
+		in = append(in, p)
+		if i == f.frame {
+			start = len(plain)
+		}
+		plain = append(plain, specFrame(p.nonce, p.payload)...)
+	}
+	stream := sc.encrypt(plain)
+	off, ok := f.offsetIn(len(in[f.frame].payload))
+	if !ok {
+		return "bad-op"
+	}
+	bad := f.apply(stream, start+off)
+	closed := make(chan struct{})
+	go func() {
+		sc.writeSegmented(bad, rng)
+		sc.close()
+		close(closed)
+	}()
+	var got [][]byte
+	quiet := time.NewTimer(time.Hour)
+	defer quiet.Stop()
+	closedCh := closed
+	for done := false; !done; {
+		select {
+		case p := <-conn.Responses():
+			got = append(got, p.Payload)
+			if len(got) > len(in)+2 {
+				done = true
+			}
+		case <-closedCh:
+			// everything is written and the connection closed: whatever the client still delivers comes shortly
+			closedCh = nil
+			quiet.Reset(250 * time.Millisecond)
+		case <-quiet.C:
+			done = true
+		}
+	}
+	for i, g := range got {
+		if i >= f.frame {
+			return fmt.Sprintf("FAIL delivered-for-corrupt-frame-or-end-of-stream position=%d len=%d (Responses() after a %s fault in the %s of frame %d)", i, len(g), f.kind, f.region, f.frame)
+		}
+		if !bytes.Equal(g, in[i].payload) {
+			return fmt.Sprintf("FAIL s2c-payload-differs frame=%d", i)
+		}
+	}
+	if len(got) != f.frame {
+		return fmt.Sprintf("FAIL intact-frame-lost got=%d want=%d", len(got), f.frame)
+	}
+	return "ok"
+}
+
+// goAdnlSlowConsumer: the consumer of Responses() starts reading only after `sleepMs`: every packet must still arrive,
+// in order (the connection's reader may block on the consumer, it may not drop).
+//
+//	args: serverSeed seed n sleepMs
+func goAdnlSlowConsumer(a []string) string {
+	quietStdout()
+	rng := rand.New(rand.NewSource(int64(atoi(a[1]))))
+	n, sleepMs := atoi(a[2]), atoi(a[3])
+	srv, err := newADNLServer(h.MustUnHex(a[0]))
+	if err != nil {
+		return "FAIL listen " + err.Error()
+	}
+	defer srv.close()
+	replyNonce := make([]byte, 32)
+	rng.Read(replyNonce)
+	conn, sc, fail := dialReal(srv, replyNonce)
+	if fail != "" {
+		return fail
+	}
+	defer sc.close()
+	defer conn.VerifRetire()
+	var in []pkt
+	var plain []byte
+	for i := 0; i < n; i++ {
+		nonce := make([]byte, 32)
+		rng.Read(nonce)
+		p := pkt{nonce, payloadOf(rng, 1+rng.Intn(300))}
+		in = append(in, p)
+		plain = append(plain, specFrame(p.nonce, p.payload)...)
+	}
+	if err := sc.writeRaw(sc.encrypt(plain)); err != nil {
+		return "FAIL server-write-error " + err.Error()
+	}
+	time.Sleep(time.Duration(sleepMs) * time.Millisecond)
+	t := time.NewTimer(3 * time.Second)
+	defer t.Stop()
+	for i, p := range in {
+		select {
+		case got := <-conn.Responses():
+			if !bytes.Equal(got.Payload, p.payload) {
+				return fmt.Sprintf("FAIL slow-consumer-loses-packets position=%d (a later or different packet arrived)", i)
+			}
+		case <-t.C:
+			return fmt.Sprintf("FAIL slow-consumer-loses-packets delivered=%d of %d after the consumer slept %d ms", i, n, sleepMs)
+		}
+	}
+	return "ok"
+}
+
+// goAdnlDialDeadline: the context passed to NewConnection bounds the DIAL (and handshake), not the life of the
+// connection: long after that deadline has passed, packets still flow in both directions.
+//
+//	args: serverSeed seed dialTimeoutMs
+func goAdnlDialDeadline(a []string) string {
+	quietStdout()
+	rng := rand.New(rand.NewSource(int64(atoi(a[1]))))
+	dialMs := atoi(a[2])
+	srv, err := newADNLServer(h.MustUnHex(a[0]))
+	if err != nil {
+		return "FAIL listen " + err.Error()
+	}
+	defer srv.close()
+	replyNonce := make([]byte, 32)
+	rng.Read(replyNonce)
+	type accRes struct {
+		sc  *srvConn
+		err error
+	}
+	acc := make(chan accRes, 1)
+	go func() {
+		sc, err := srv.accept(sessionDeadline, replyNonce)
+		acc <- accRes{sc, err}
+	}()
+	ctx, cancel := context.WithTimeout(context.Background(), time.Duration(dialMs)*time.Millisecond)
+	defer cancel()
+	conn, cerr := liteclient.NewConnection(ctx, srv.key.pub, srv.addr())
+	ar := <-acc
+	if cerr != nil || ar.err != nil {
+		if conn != nil {
+			conn.VerifRetire()
+		}
+		return fmt.Sprintf("FAIL setup client=%v server=%v", cerr, ar.err)
+	}
+	sc := ar.sc
+	defer sc.close()
+	defer conn.VerifRetire()
+	time.Sleep(time.Duration(2*dialMs+100) * time.Millisecond)
+	// server → client
+	nonce := make([]byte, 32)
+	rng.Read(nonce)
+	down := payloadOf(rng, 100)
+	if err := sc.sendPacket(nonce, down); err != nil {
+		return "FAIL connection-dead-after-dial-deadline server-write: " + err.Error()
+	}
+	select {
+	case p := <-conn.Responses():
+		if !bytes.Equal(p.Payload, down) {
+			return "FAIL s2c-payload-differs"
+		}
+	case <-time.After(2 * time.Second):
+		return "FAIL connection-dead-after-dial-deadline: nothing received"
+	}
+	// client → server
+	up := payloadOf(rng, 100)
+	p, _ := liteclient.NewPacket(up)
+	if err := conn.Send(p); err != nil {
+		return "FAIL connection-dead-after-dial-deadline client-send: " + err.Error()
+	}
+	sc.c.SetReadDeadline(time.Now().Add(2 * time.Second))
+	_, gotUp, _, err := sc.readFrame()
+	if err != nil || !bytes.Equal(gotUp, up) {
+		return fmt.Sprintf("FAIL connection-dead-after-dial-deadline server-read: %v", err)
+	}
+	return "ok"
+}
+
+// goAdnlPingRace (THOROUGH tier, real time): one connection kept busy by several sender goroutines for more than two
+// ping periods (the keep-alive goroutine writes every 3 s): every frame the server reads — data and pings alike — must be
+// intact and the data frames must be exactly what was sent.
+//
+//	args: serverSeed seed goroutines seconds
+func goAdnlPingRace(a []string) string {
+	quietStdout()
+	if runtime.GOMAXPROCS(0) < 4 {
+		runtime.GOMAXPROCS(4)
+	}
+	rng := rand.New(rand.NewSource(int64(atoi(a[1]))))
+	ng, secs := atoi(a[2]), atoi(a[3])
+	srv, err := newADNLServer(h.MustUnHex(a[0]))
+	if err != nil {
+		return "FAIL listen " + err.Error()
+	}
+	defer srv.close()
+	replyNonce := make([]byte, 32)
+	rng.Read(replyNonce)
+	conn, sc, fail := dialReal(srv, replyNonce)
+	if fail != "" {
+		return fail
+	}
+	defer sc.close()
+	defer conn.VerifRetire()
+	stop := time.Now().Add(time.Duration(secs) * time.Second)
+	var sent [16]int64
+	var wg sync.WaitGroup
+	var mu sync.Mutex
+	var sendErr error
+	for g := 0; g < ng && g < 16; g++ {
+		wg.Add(1)
+		go func(g int) {
+			defer wg.Done()
+			for j := 0; time.Now().Before(stop); j++ {
+				b := make([]byte, 16)
+				binary.LittleEndian.PutUint32(b, uint32(g))
+				binary.LittleEndian.PutUint32(b[4:], uint32(j))
+				p, _ := liteclient.NewPacket(b)
+				if err := conn.Send(p); err != nil {
+					mu.Lock()
+					sendErr = err
+					mu.Unlock()
+					return
+				}
+				sent[g] = int64(j + 1)
+			}
+		}(g)
+	}
+	type rd struct {
+		data, pings int
+		err         error
+	}
+	res := make(chan rd, 1)
+	finished := make(chan struct{})
+	go func() {
+		var r rd
+		next := make([]int, 16)
+		for {
+			sc.c.SetReadDeadline(time.Now().Add(1500 * time.Millisecond))
+			_, p, _, err := sc.readFrame()
+			if err != nil {
+				select {
+				case <-finished: // senders are done and the stream ran dry
+				default:
+					r.err = err
+					sc.close() // the senders must not block on a peer that stopped reading
+				}
+				res <- r
+				return
+			}
+			if len(p) == 12 && binary.LittleEndian.Uint32(p) == 0x4d082b9a {
+				r.pings++
+				// answer like a server does: without pongs the client's 10 s silence timer re-dials
+				pong := append([]byte{0x03, 0xfb, 0x69, 0xdc}, p[4:]...)
+				sc.sendPacket(bytes.Repeat([]byte{byte(r.pings)}, 32), pong)
+				continue
+			}
+			if len(p) != 16 {
+				r.err = fmt.Errorf("unexpected payload of %d bytes", len(p))
+				sc.close()
+				res <- r
+				return
+			}
+			g, j := int(binary.LittleEndian.Uint32(p)), int(binary.LittleEndian.Uint32(p[4:]))
+			if g >= 16 || j != next[g] {
+				r.err = fmt.Errorf("goroutine %d: packet %d arrived, %d expected", g, j, next[g])
+				sc.close()
+				res <- r
+				return
+			}
+			next[g]++
+			r.data++
+		}
+	}()
+	wg.Wait()
+	close(finished)
+	r := <-res
+	if r.err != nil {
+		return fmt.Sprintf("FAIL keepalive-races-with-send after %d data frames and %d pings: %v", r.data, r.pings, r.err)
+	}
+	if sendErr != nil {
+		return "FAIL client-send-error " + sendErr.Error()
+	}
+	total := 0
+	for _, n := range sent {
+		total += int(n)
+	}
+	if r.data != total {
+		return fmt.Sprintf("FAIL keepalive-races-with-send frames lost: read=%d sent=%d", r.data, total)
+	}
+	if r.pings < 2 {
+		return fmt.Sprintf("FAIL no-keepalive-seen pings=%d in %d s", r.pings, secs)
+	}
+	return "ok"
+}
+
 var specialMagics = [][]byte{
 	{0x03, 0xfb, 0x69, 0xdc}, // tcp.pong
 	{0x9a, 0x2b, 0x08, 0x4d}, // tcp.ping
@@ -462,6 +781,24 @@ func goAdnlMagics(a []string) string {
 
 // genC11Extra is called at the end of genC11.
 func genC11Extra(g *h.G) {
+	// the fault stream through Connection.Responses(): every (kind, region) in turn
+	for i := 0; i < g.Scale(36, 600); i++ {
+		n := 1 + g.Rng.Intn(5)
+		sizes := make([]int, n)
+		for j := range sizes {
+			sizes[j] = g.Pick(1, 12, 36, 100, 1000)
+		}
+		f := fmt.Sprintf("%s:%d:%s:%d:%d", kinds[i%3], g.Rng.Intn(n), regions[(i/3)%4], g.Rng.Intn(1<<16), 1+g.Rng.Intn(255))
+		g.Count("connfault_" + kinds[i%3] + "_" + regions[(i/3)%4])
+		g.Emit("go.adnl.connfaults", h.Hex(g.Bytes(32)), fmt.Sprint(g.Rng.Int31()), joinSizes(sizes), f)
+	}
+	for i := 0; i < g.Scale(2, 10); i++ {
+		g.Emit("go.adnl.slowconsumer", h.Hex(g.Bytes(32)), fmt.Sprint(g.Rng.Int31()), fmt.Sprint(2+g.Rng.Intn(6)), "1500")
+		g.Emit("go.adnl.dialdeadline", h.Hex(g.Bytes(32)), fmt.Sprint(g.Rng.Int31()), "300")
+	}
+	if g.Thorough() {
+		g.Emit("go.adnl.pingrace", h.Hex(g.Bytes(32)), fmt.Sprint(g.Rng.Int31()), "8", "28")
+	}
 	for i := 0; i < g.Scale(150, 2000); i++ {
 		g.Emit("adnl.keyid", h.Hex(g.Bytes(32)))
 		g.Emit("adnl.scalar", h.Hex(g.Bytes(32)))
